@@ -532,7 +532,10 @@ func (c *c12) rangeResults(ctx context.Context, r *vkit.RNG, env *c12Env, blk, o
 		})
 		msp("leafhash-add", func(q *tmproto.NMTProof) bool { q.LeafHash = r.Bytes(90); return true })
 		// --- namespace
-		mut("nsid-other", func(x *nodeshare.GetRangeResult) bool { x.Proof.NamespaceID = c12flip(r, x.Proof.NamespaceID); return true })
+		mut("nsid-other", func(x *nodeshare.GetRangeResult) bool {
+			x.Proof.NamespaceID = c12flip(r, x.Proof.NamespaceID)
+			return true
+		})
 		mut("nsid-nil", func(x *nodeshare.GetRangeResult) bool { x.Proof.NamespaceID = nil; return true })
 		mut("nsversion-other", func(x *nodeshare.GetRangeResult) bool { x.Proof.NamespaceVersion++; return true })
 		mut("nsversion-huge", func(x *nodeshare.GetRangeResult) bool { x.Proof.NamespaceVersion = math.MaxUint32; return true })
@@ -613,7 +616,11 @@ func (c *c12) rangeResults(ctx context.Context, r *vkit.RNG, env *c12Env, blk, o
 		})
 		mrp("leafhash-bitflip", func(q *merkle.Proof) bool { q.LeafHash = c12flip(r, q.LeafHash); return true })
 		mrp("leafhash-nil", func(q *merkle.Proof) bool { q.LeafHash = nil; return true })
-		mut("rp-rows-shifted", func(x *nodeshare.GetRangeResult) bool { x.Proof.RowProof.StartRow++; x.Proof.RowProof.EndRow++; return true })
+		mut("rp-rows-shifted", func(x *nodeshare.GetRangeResult) bool {
+			x.Proof.RowProof.StartRow++
+			x.Proof.RowProof.EndRow++
+			return true
+		})
 		mut("rp-endrow+1", func(x *nodeshare.GetRangeResult) bool { x.Proof.RowProof.EndRow++; return true })
 		mut("rp-startrow>endrow", func(x *nodeshare.GetRangeResult) bool {
 			x.Proof.RowProof.StartRow = x.Proof.RowProof.EndRow + 1
